@@ -306,6 +306,7 @@ class Server:
         # TODO: caching, to not make this extra work
         self.secnode.get_descriptive_data('')
         # =========== All modules are initialized ===========
+        self.secnode.check_attachments()
 
         # all errors from initialization process
         errors = self.secnode.errors
